@@ -21,6 +21,14 @@ def entries():
                 _CACHE = json.load(fi)['findings']
         else:
             _CACHE = []
+        # per-property files written while a check is being developed;
+        # merged into known_findings.json at integration time
+        d = os.path.join(verif_root(), 'findings')
+        if os.path.isdir(d):
+            for fn in sorted(os.listdir(d)):
+                if fn.endswith('.json'):
+                    with open(os.path.join(d, fn)) as fi:
+                        _CACHE = _CACHE + json.load(fi)['findings']
     return _CACHE
 
 
